@@ -71,46 +71,76 @@ func VxC30Fold() {
 	}
 }
 
-// Nested lists: operand k of the outer list is itself an R % sep result.
-func VxC30Nested() {
-	M := vxParam("M")
-	m := vxConcrete(vxIntRange(1, M))
-	k := vxConcrete(vxIntRange(0, m)) // which operand is nested
-	mi := vxConcrete(vxIntRange(0, 2)) // separators in the nested list
-	vals := make([]int, m+1)
+// Nested lists to depth D: at every level one operand (any position, first or right) may itself be an
+// R % sep result, as in operand % mulop % addop % ... grammars.
+// vxNest returns the result structure, the expected left-fold term (BinaryOpR) and a structural
+// description of the expected tree (BinaryExprR).
+type vxTree struct {
+	leaf *xast.Ident
+	op   *Token
+	x, y *vxTree
+}
+
+func vxNest(depth, M int, asExpr bool) (any, int, *vxTree) {
+	if depth == 0 {
+		if asExpr {
+			id := &xast.Ident{Name: "v"}
+			return xast.Expr(id), 0, &vxTree{leaf: id}
+		}
+		v := vxInt()
+		return v, v, nil
+	}
+	lo := 0
+	if depth == vxParam("D") {
+		lo = 1
+	}
+	m := vxConcrete(vxIntRange(lo, M))
+	k := vxConcrete(vxIntRange(0, m)) // which operand is nested one level deeper
 	xs := make([]any, m+1)
+	vals := make([]int, m+1)
+	trees := make([]*vxTree, m+1)
 	ops := make([]*Token, m)
-	for i := range vals {
-		vals[i] = vxInt()
-		xs[i] = vals[i]
+	for i := range xs {
+		d := 0
+		if i == k {
+			d = depth - 1
+		}
+		xs[i], vals[i], trees[i] = vxNest(d, 2, asExpr)
 	}
 	for i := range ops {
-		ops[i] = &Token{Tok: token.Token(uint(vxIntRange(1, 200)))}
+		ops[i] = &Token{Tok: token.Token(uint(vxIntRange(1, 200))), Pos: token.Pos(vxIntRange(1, 1000))}
 	}
-	ivals := make([]int, mi+1)
-	ixs := make([]any, mi+1)
-	iops := make([]*Token, mi)
-	for i := range ivals {
-		ivals[i] = vxInt()
-		ixs[i] = ivals[i]
-	}
-	for i := range iops {
-		iops[i] = &Token{Tok: token.Token(uint(vxIntRange(1, 200)))}
-	}
-	inner := vxMkList(mi, ixs, iops)
-	iexp := ivals[0]
-	for i := 0; i < mi; i++ {
-		iexp = vxUF("f", int(iops[i].Tok), iexp, ivals[i+1])
-	}
-	xs[k] = inner
-	vals[k] = iexp
-	in := vxMkList(m, xs, ops)
-	exp := vals[0]
+	exp, tr := vals[0], trees[0]
 	for i := 0; i < m; i++ {
-		exp = vxUF("f", int(ops[i].Tok), exp, vals[i+1])
+		if asExpr {
+			tr = &vxTree{op: ops[i], x: tr, y: trees[i+1]}
+		} else {
+			exp = vxUF("f", int(ops[i].Tok), exp, vals[i+1])
+		}
 	}
-	got := BinaryOpR(in, vxF)
+	return vxMkList(m, xs, ops), exp, tr
+}
+
+func vxSameTree(e xast.Expr, t *vxTree) bool {
+	if t.leaf != nil {
+		return e == xast.Expr(t.leaf)
+	}
+	b, ok := e.(*xast.BinaryExpr)
+	return ok && int(b.Op) == int(t.op.Tok) && b.OpPos == t.op.Pos && vxSameTree(b.X, t.x) && vxSameTree(b.Y, t.y)
+}
+
+func VxC30Nested() {
+	in, exp, _ := vxNest(vxParam("D"), vxParam("M"), false)
+	got := BinaryOpR(in.([]any), vxF)
 	vxAssert(got.(int) == exp, "BinaryOpR does not fold nested lists recursively, left to right")
+	got2 := BinaryOp(true, in.([]any), vxF)
+	vxAssert(got2.(int) == exp, "BinaryOp(true) does not fold nested lists recursively, left to right")
+}
+
+func VxC30NestedExpr() {
+	in, _, tr := vxNest(vxParam("D"), vxParam("M"), true)
+	vxAssert(vxSameTree(BinaryExprR(in.([]any)), tr), "BinaryExprR does not build the left-nested tree of nested lists")
+	vxAssert(vxSameTree(BinaryExpr(true, in.([]any)), tr), "BinaryExpr(true) does not build the left-nested tree of nested lists")
 }
 
 // BinaryExpr / BinaryExprNR / BinaryExprR build the left-nested tree.
